@@ -271,9 +271,11 @@ func (c *Conn) OpenUpstream(ctx context.Context, sessionID string, opts ...Upstr
 	upconf.SessionID = sessionID
 
 	var resp *message.UpstreamOpenResponse
+	var upGen uint64
 	err := c.send(ctx, func(ctx context.Context) error {
 		c.wireConnMu.Lock()
 		defer c.wireConnMu.Unlock()
+		upGen = c.state.Generation()
 		r, err := c.wireConn.SendUpstreamOpenRequest(ctx, &message.UpstreamOpenRequest{
 			SessionID:      upconf.SessionID,
 			AckInterval:    *upconf.AckInterval,
@@ -338,6 +340,7 @@ func (c *Conn) OpenUpstream(ctx context.Context, sessionID string, opts ...Upstr
 		eventDispatcher:      newEventDispatcher(),
 
 		connState:               c.state,
+		connGen:                 upGen,
 		explicitlyFlushCh:       make(chan (<-chan struct{})),
 		explicitlyFlushResultCh: make(chan error),
 		Config:                  upconf,
@@ -380,7 +383,11 @@ func (c *Conn) OpenUpstream(ctx context.Context, sessionID string, opts ...Upstr
 					return
 				}
 
-				if err := u.resume(c.wireConn); err != nil {
+				c.wireConnMu.Lock()
+				wc, gen := c.wireConn, c.state.Generation()
+				c.wireConnMu.Unlock()
+				u.connGen = gen
+				if err := u.resume(wc); err != nil {
 					u.logger.Errorf(ctx, "failed to resume upstream: %+v", err)
 					return
 				}
@@ -413,6 +420,7 @@ func (c *Conn) OpenDownstream(ctx context.Context, filters []*message.Downstream
 		ackCompCh      <-chan *message.DownstreamChunkAckComplete
 		metaCh         <-chan *message.DownstreamMetadata
 		aliasGenerator = wire.NewAliasGenerator(0)
+		downGen        uint64
 		aliases        = make(map[uint32]*message.DataID, len(downconf.DataIDs))
 		revAliases     = make(map[message.DataID]uint32, len(downconf.DataIDs))
 	)
@@ -440,6 +448,7 @@ func (c *Conn) OpenDownstream(ctx context.Context, filters []*message.Downstream
 		if err != nil {
 			return errors.Errorf("failed subscribeDownstreamMetadata: %w", err)
 		}
+		downGen = c.state.Generation()
 
 		resp, err = c.wireConn.SendDownstreamOpenRequest(ctx, &message.DownstreamOpenRequest{
 			DesiredStreamIDAlias: alias,
@@ -501,6 +510,7 @@ func (c *Conn) OpenDownstream(ctx context.Context, filters []*message.Downstream
 		logger: c.logger,
 
 		connStatus: c.state,
+		connGen:    downGen,
 		state:      newStreamState(),
 		Config:     downconf,
 	}
@@ -538,6 +548,7 @@ func (c *Conn) OpenDownstream(ctx context.Context, filters []*message.Downstream
 					down.logger.Errorf(ctx, "Failed to wait state in resume downstream: %+v", err)
 					return
 				}
+				down.connGen = c.state.Generation()
 
 				if err := down.resume(c); err != nil {
 					down.logger.Errorf(ctx, "Failed to resume downstream: %+v", err)
@@ -653,7 +664,7 @@ func (c *Conn) reconnect(ctx context.Context) error {
 		return resErr
 	}
 	c.wireConn = res
-	if !c.state.CompareAndSwap(connStatusReconnecting, connStatusConnected) {
+	if !c.state.CompareAndSwapNewGeneration(connStatusReconnecting, connStatusConnected) {
 		// 再接続中にCloseされた場合は、新しい接続を破棄します。
 		res.Close()
 		return errors.ErrConnectionClosed
